@@ -18,4 +18,17 @@ PROPS = {
     },
 }
 
+PROPS["C13"] = {
+    "suites": ["renumber"],
+    "level_text": "Kernel-checked theorems for all byte contents and all counter states about a Gallina transcription of processYaml/formatEndOfFile: the shared index is max(ids, titles) in every reachable state, the number written on every key line, lines without a key are copied unchanged, the output is empty or ends with exactly one newline; the unguarded 'n-th test_id is n' is refuted by a model witness that replays on the code (known finding). Tied by pins on the two patterns and the function literals and by differential runs against processYaml.",
+    "level_note": "Trusted: Coq kernel, translator, extraction, harness. Modelled: processYaml, formatEndOfFile, processFile's write decision; bufio.Scanner is the model Base/Lines.v (validated in suite scan). bytes.TrimSpace is modelled for ASCII white space only (generators avoid U+0085/U+00A0). Idempotence and --check agreement are decided per generated file by the oracle, not yet by a theorem.",
+    "assumptions": ["lines handled by the regexps contain no newline (guaranteed by the scanner)", "no Unicode white space beyond ASCII at line ends"],
+}
+PROPS["C14"] = {
+    "suites": ["copyright"],
+    "level_text": "Kernel-checked theorems for all lines/versions/years about a Gallina transcription of updateRules (five ReplaceAllString passes): text without markers is copied, the header and copyright markers show exactly V and Y and are fixed points; idempotence for all accepted versions is refuted by a model witness replayed on the code (known finding C14-version-forms). Tied by pins on the five patterns and by differential runs against updateRules with histories of invocations.",
+    "level_note": "Trusted: Coq kernel, translator, extraction, harness. Modelled: updateRules; semver.NewVersion is an oracle (the real validateSemver decides which versions the oracle runs use); template expansion assumes no '$' in version/year; '.' in the patterns is modelled on bytes (generators put no multi-byte rune at those positions); time.Now default year not modelled.",
+    "assumptions": ["version strings contain no '$'", "four-digit years"],
+}
+
 NOT_APPLICABLE = {}
